@@ -110,7 +110,7 @@ PROPS = {
               'checked for linearizability against the array model (bundle members individually atomic, in order); '
               'non-trivial = >= 4 requests, >= 2 on shared ranges, checker decided'),
         assumptions=['linearizability search capped at 2e5 nodes; a cap hit is counted as undecided, never as pass or fail'],
-        quick=dict(parts=[dict(world='c09', count=400)]),
+        quick=dict(parts=[dict(world='c09', count=600)]),
         thorough=dict(parts=[dict(world='c09', count=20000)]),
     ),
     'C08': dict(
